@@ -74,11 +74,37 @@ def main():
     for line in known_lines:
         print(line)
 
+    # An undecided obligation is never reported as a violation by itself. If the native replay of its contract finds a
+    # failing input on the real code, the violation is demonstrated and is reported (with that input).
+    still_undecided = []
+    replay_cache = {}
+    for ob in undecided[:12]:
+        if not hasattr(mod, "replay") or ob.kind in ("cover", "canary"):
+            still_undecided.append(ob)
+            continue
+        key = mod.replay_key(ob) if hasattr(mod, "replay_key") else ob.id
+        if key not in replay_cache:
+            replay_cache[key] = safe_replay(mod, ob)
+        native = replay_cache[key]
+        if native and native.get("reproduced"):
+            ob.detail = "undecided by the solver (%s); native replay of the contract found a failing input" % ob.detail[:200]
+            ob._native = native
+            violations.append(ob)
+        else:
+            still_undecided.append(ob)
+    still_undecided.extend(undecided[12:])
+    undecided = still_undecided
+
     vio_lines = []
     for ob in violations[:25]:
         native = {"reproduced": False, "note": "no replay procedure"}
-        if hasattr(mod, "replay"):
-            native = safe_replay(mod, ob) or native
+        if getattr(ob, "_native", None) is not None:
+            native = ob._native
+        elif hasattr(mod, "replay"):
+            key = mod.replay_key(ob) if hasattr(mod, "replay_key") else ob.id
+            if key not in replay_cache:
+                replay_cache[key] = safe_replay(mod, ob)
+            native = replay_cache[key] or native
         path = common.write_replay(pid, ob, native)
         tail = "" if native.get("reproduced") else " no-failing-input-found"
         vio_lines.append("VIOLATION property=%s replay=%s obligation=%s%s" % (pid, path, ob.id, tail))
